@@ -166,7 +166,7 @@ fn run(ctx: &mut Ctx) {
         let cfg = match i % 4 {
             0 => ProgCfg { nframes: 3, nreg: 2, max_len: 10, rf_pct: 50, cf_pct: 0, bad_permille: 0 },
             1 => ProgCfg { nframes: 4, nreg: 2, max_len: 14, rf_pct: 50, cf_pct: 15, bad_permille: 4 },
-            2 => ProgCfg { nframes: 5, nreg: 3, max_len: 20, rf_pct: 40, cf_pct: 25, bad_permille: 4 },
+            2 => ProgCfg { nframes: 11, nreg: 3, max_len: 20, rf_pct: 40, cf_pct: 25, bad_permille: 4 },
             _ => ProgCfg { nframes: 1, nreg: 1, max_len: 12, rf_pct: 60, cf_pct: 8, bad_permille: 0 },
         };
         let text = program_text(&mut rng, &cfg);
@@ -185,7 +185,7 @@ fn run(ctx: &mut Ctx) {
         let cfg = match i % 3 {
             0 => ProgCfg { nframes: 3, nreg: 2, max_len: 10, rf_pct: 50, cf_pct: 0, bad_permille: 0 },
             1 => ProgCfg { nframes: 4, nreg: 2, max_len: 14, rf_pct: 50, cf_pct: 15, bad_permille: 4 },
-            _ => ProgCfg { nframes: 5, nreg: 3, max_len: 20, rf_pct: 40, cf_pct: 25, bad_permille: 4 },
+            _ => ProgCfg { nframes: 11, nreg: 3, max_len: 20, rf_pct: 40, cf_pct: 25, bad_permille: 4 },
         };
         let text = ast_program_text(&mut rng, &cfg);
         ast_case(ctx, &text);
